@@ -62,7 +62,7 @@ H = [bytes(20),                                   # all zero
      b'\x01' + b'\xfe' * 18 + b'\x00',            # looks like an originated-contract frame
      b'\x03' + b'\xaa' * 18 + b'\x00',            # looks like a rollup frame
      b'\xff' * 20]
-NUMS_Q = [0, 1, 127, 128, 16383, 16384, 2 ** 63, 2 ** 64, 2 ** 64 + 1]
+NUMS_Q = [0, 1, 127, 128, 16383, 16384, 2 ** 63, 2 ** 64, 2 ** 64 + 1, 2 ** 70, 2 ** 77 + 3]  # >= 2^70: more than 10 LEB128 groups
 NUMS_T = NUMS_Q + [2 ** 32, 2 ** 128 + 5]
 BRANCHES = [b58.enc('B', bytes(range(32))), b58.enc('B', b'\xff' * 32)]
 UNIT = {'prim': 'Unit'}
